@@ -1035,6 +1035,9 @@ func extractRouting(repo, root string) error {
 	if err := emitPrepare(repo, &b); err != nil {
 		return err
 	}
+	if err := emitSplitFields(repo, &b); err != nil {
+		return err
+	}
 	guard, err := brokerConnGuard(repo)
 	if err != nil {
 		return err
